@@ -138,12 +138,73 @@ def fmt_path(p):
     )
 
 
+def msa_order_rules(ctx):
+    """results are mapped back to the input order (MSAApp and its subclasses): the input file labels sequence i with str(i);
+    the alignment rows are fetched by those labels in input order; get_alignment_order() lists, for every output position,
+    the input index that stands there"""
+    from ..exprnorm import same_expr
+    MSA = "application/msaapp.py"
+    s = ctx.src(MSA)
+    run_ = s.func("MSAApp.run")
+    ev = s.func("MSAApp.evaluate")
+
+    def loops(f):
+        return [lp for lp in ast.walk(f) if isinstance(lp, ast.For)]
+    # writer: for i, seq in enumerate(sequences): file[str(i)] = str(seq)
+    ok_w = False
+    for lp in loops(run_):
+        if isinstance(lp.iter, ast.Call) and call_name(lp.iter) == "enumerate" and isinstance(lp.target, ast.Tuple) and len(lp.target.elts) == 2 \
+                and all(isinstance(e, ast.Name) for e in lp.target.elts):
+            i_, v_ = (e.id for e in lp.target.elts)
+            ok_w = ok_w or any(isinstance(b, ast.Assign) and isinstance(b.targets[0], ast.Subscript) and same_expr(b.targets[0].slice, f"str({i_})")
+                               and same_expr(b.value, f"str({v_})") for b in lp.body)
+    ctx.ob("R6.msa-input-labels", MSA, "MSAApp.run", "sequences_file[str(i)] = str(seq) for i, seq in enumerate(sequences)", ok_w,
+           "the input file must label every sequence with its position in the input list: the labels are the only link back to the input order",
+           run_.lineno)
+    # reader: rows fetched by label in input order
+    ok_r = False
+    for lp in loops(ev):
+        if isinstance(lp.iter, ast.Call) and call_name(lp.iter) == "range" and len(lp.iter.args) == 1 and same_expr(lp.iter.args[0], "len(self._sequences)") \
+                and isinstance(lp.target, ast.Name):
+            i_ = lp.target.id
+            ok_r = ok_r or any(isinstance(b, ast.Assign) and isinstance(b.targets[0], ast.Subscript) and same_expr(b.targets[0].slice, i_)
+                               and isinstance(b.value, ast.Subscript) and same_expr(b.value.slice, f"str({i_})") for b in lp.body)
+    ctx.ob("R6.msa-rows-by-label", MSA, "MSAApp.evaluate", "out_seq_str[i] = seq_dict[str(i)] for i in range(len(self._sequences))", ok_r,
+           "row i of the alignment must be the output sequence labelled str(i), whatever order the program wrote them in", ev.lineno)
+    # order: for position, label in enumerate(<output in file order>): order[position] = int(label)
+    ok_o = False
+    for lp in loops(ev):
+        if isinstance(lp.iter, ast.Call) and call_name(lp.iter) == "enumerate" and isinstance(lp.target, ast.Tuple) and len(lp.target.elts) == 2 \
+                and all(isinstance(e, ast.Name) for e in lp.target.elts):
+            pos_, key_ = (e.id for e in lp.target.elts)
+            for b in lp.body:
+                if isinstance(b, ast.Assign) and isinstance(b.targets[0], ast.Subscript) and same_expr(b.targets[0].value, "self._order"):
+                    ok_o = same_expr(b.targets[0].slice, pos_) and same_expr(b.value, f"int({key_})")
+    # the same written as one expression: the labels in file order, each converted with int()
+    for st in ast.walk(ev):
+        if isinstance(st, ast.Assign) and same_expr(st.targets[0], "self._order"):
+            for comp in ast.walk(st.value):
+                if isinstance(comp, (ast.ListComp, ast.GeneratorExp)) and len(comp.generators) == 1 and not comp.generators[0].ifs \
+                        and isinstance(comp.generators[0].target, ast.Name) and same_expr(comp.elt, f"int({comp.generators[0].target.id})"):
+                    outer = st.value
+                    wraps = isinstance(outer, ast.Call) and (call_name(outer) or "") in ("np.array", "np.asarray", "np.fromiter", "list") \
+                        and outer.args and outer.args[0] is comp
+                    ok_o = ok_o or wraps or outer is comp
+    ctx.ob("R6.msa-order-is-output-order", MSA, "MSAApp.evaluate", "self._order[position] = int(label)", ok_o,
+           "get_alignment_order() is documented as the input indices in the order of the program's output (alignment[:, order] rebuilds "
+           "that order): entry `position` is the label found there, not the other way round (that is the inverse permutation)", ev.lineno)
+
+
 def run(ctx):
     files = app_files(ctx)
     ctx.need(len(files) >= 15, "application package files")
     idx = ClassIndex(ctx, files)
     ctx.need("Application" in idx.classes, "class Application")
     apps = ["Application"] + idx.subclasses("Application")
+    # a timeout of 0 seconds is a timeout (cancel at once), only None means "wait for ever"
+    from ..lints import optional_numbers_tested_for_none
+    optional_numbers_tested_for_none(ctx, "application/application.py", "R2.timeout-zero-honoured", 1)
+    msa_order_rules(ctx)
     ctx.count("application_classes", len(apps))
     ctx.floor("classes", len(apps), 15)
 
@@ -626,6 +687,11 @@ def _inherited_tempfile(idx, cls, attr):
 
 
 MUTANTS = [
+    Mutant("msa-order-inverted", "application/msaapp.py", "            self._order[i] = int(seq_index)\n", "            self._order[int(seq_index)] = i\n", "R6.msa-order-is-output-order"),
+    Mutant("msa-rows-in-file-order", "application/msaapp.py", "            out_seq_str[i] = seq_dict[str(i)]\n", "            out_seq_str[i] = list(seq_dict.values())[i]\n", "R6.msa-rows-by-label"),
+    Mutant("msa-labels-from-one", "application/msaapp.py", "            sequences_file[str(i)] = str(seq)\n", "            sequences_file[str(i + 1)] = str(seq)\n", "R6.msa-input-labels"),
+    Mutant("join-timeout-truthiness", "application/application.py", "            if timeout is not None and time.time() - self._start_time > timeout:\n",
+           "            if timeout and time.time() - self._start_time > timeout:\n", "R2.timeout-zero-honoured"),
     Mutant("exit-code-positive-only", "application/localapp.py", "        if exit_code != 0:", "        if exit_code > 0:", "R5.nonzero-exit-refused"),
     Mutant("cancel-drops-cleanup", "application/application.py",
            "        self._state = AppState.CANCELLED\n        self.clean_up()\n\n    def get_app_state",
